@@ -1,6 +1,8 @@
 import FxVerif.Model.C16
 import FxVerif.Model.C16Sem
 import FxVerif.Model.C16Store
+import FxVerif.Model.C16Tx
+import FxVerif.Model.C16Dep
 import FxVerif.Model.Util
 /-! line-protocol driver for the C16 model: `lake env lean --run Driver/C16.lean < ops.txt`
 
@@ -10,6 +12,9 @@ ops:
 * `bech <str-hex>`                                  `sdk.AccAddressFromBech32`       → `ok:<bytes-hex>` | `err`
 * `fold <a-hex> <b-hex>`                            `strings.EqualFold`             → `true` | `false`
 * `call <msg> <gov-hex> <auth-hex> <payloadOk> <chain> <govOk> <non-empty list fields>`   one routed message → the stage it ends in
+* `hcall <type> <msg> <gov-hex> <auth-hex> <chain> <govOk> <non-empty list fields>`   the method serving the message on a value of that concrete type, called directly
+* `tx|authz|gprop <msg> <gov-hex> <auth-hex> <signer/grantee bytes hex or -> <payloadOk> <chain> <govOk> <lists>`   the message inside a signed transaction / a MsgExec / a passed proposal
+* `dcall <type> <method> <gov-hex> <auth-hex>`         a dependency handler (SDK / IBC / ethermint) called directly
 * `casreset`                                        empty scratch stores
 * `cas <gov-hex> <auth-hex> <space:key:old:new>…`   one MsgUpdateStore through its branch
 * `prop <gov-hex> m <auth-hex> <entry>… m …`        a passed proposal with several MsgUpdateStore messages
@@ -95,6 +100,27 @@ def step (st : St) (line : String) : St × String :=
         | (.handler, _) => "past-guard")
     | none, _, _ => (st, "unknown-message")
     | _, _, _ => (st, "bad-op")
+  | ["hcall", T, msg, govH, authH, chain, govOk, lists] =>
+    -- handler level: the method serving `msg` on a value of concrete type `T`, called directly (no ValidateBasic stage)
+    match methodOf C16Sem.services msg, unhexS govH, unhexS authH with
+    | some m, some gov, some auth =>
+      let env := mkEnv st.cfg gov (if lists == "-" then [] else lists.splitOn ",") (govOk == "1")
+      let routeOk := C16Sem.routes.contains chain
+      let r := exec prog env auth (world routeOk) 4 T m 0
+      (st, match r with
+        | (.err, 0) => if needsRoute prog T m && !routeOk then "rejected:no-route" else "rejected:signer"
+        | _ => "past-guard")
+    | none, _, _ => (st, "unknown-message")
+    | _, _, _ => (st, "bad-op")
+  | ["dcall", T, m, govH, authH] =>
+    -- a dependency handler (Gen/C16Dep.lean) called directly
+    match unhexS govH, unhexS authH with
+    | some gov, some auth =>
+      if (resolve depProg T m).isNone then (st, "unknown-handler") else
+      (st, match exec depProg (mkEnv st.cfg gov) auth (world true) 4 T m 0 with
+        | (.err, 0) => "rejected"
+        | _ => "past-guard")
+    | _, _ => (st, "bad-op")
   | "cas" :: govH :: authH :: ups =>
     match unhexS govH, unhexS authH, ups.mapM parseEntry with
     | some gov, some auth, some es =>
@@ -110,6 +136,27 @@ def step (st : St) (line : String) : St × String :=
       let (r, S') := runProposalWith C16Sem.proposalExec fs st.stores
       ({ st with stores := S' }, (if r == .ok then "passed " else "failed ") ++ showStores S')
     | _, _ => (st, "bad-op")
+  | [kind, msg, govH, authH, whoH, pOk, chain, govOk, lists] =>
+    -- `tx` / `authz` / `gprop`: a privileged message inside a signed transaction, inside a MsgExec, inside a proposal
+    match routeOf C16Sem.services C16Sem.registrations msg, unhexS govH, unhexS authH, unhex whoH with
+    | some (T, m), some gov, some auth, some who =>
+      let env := mkEnv st.cfg gov (if lists == "-" then [] else lists.splitOn ",") (govOk == "1")
+      let W := world (C16Sem.routes.contains chain)
+      let r? : Option (TxStage × (Res × Nat)) :=
+        if kind == "tx" then some (txRun prog C16Sem.msgInfos env auth W (pOk == "1") T m msg who 0)
+        else if kind == "authz" then some (authzRun prog C16Sem.msgInfos env auth W (pOk == "1") T m msg who 0)
+        else if kind == "gprop" then some (proposalRun prog C16Sem.msgInfos env auth W (pOk == "1") T m msg 0)
+        else none
+      (st, match r? with
+        | none => "bad-op"
+        | some (.basic, _) => "rejected:basic"
+        | some (.ante, _) => "rejected:ante"
+        | some (.authz, _) => "rejected:authz"
+        | some (.submit, _) => "rejected:submit"
+        | some (.msgs, (.err, 0)) => "rejected:signer"
+        | some (.msgs, _) => "past-guard")
+    | none, _, _, _ => (st, "unknown-message")
+    | _, _, _, _ => (st, "bad-op")
   | _ => (st, "bad-op")
 
 def main : IO Unit := runDriver step ({} : St)
